@@ -161,6 +161,35 @@ class HunksFam(Family):
                 else:
                     dl = lines[:p] + [b'@@ -5,1 +5,1 @@'] + lines[p:]
                 yield dict(kind='damage-' + dmg, lines=[hx(x) for x in dl], ig=rng.random() < 0.5)
+            # a body line of some hunk REPLACED by a line that is neither context, insert, delete nor the marker
+            # (consecutive hunks, no separators): the parser must raise MalformedHunkError naming exactly that line
+            cands = [(j, i) for j, h in enumerate(hs) for i in range(len(h['body']))]
+            if cands:
+                j, i = rng.choice(cands)
+                foreign = rng.choice([b'', b'\t', b'\r', b'\t \t', b'garbage', b'diff --git a/x b/x', b'\\ no newline',
+                                      b'\\No newline at end of file', b'\x0b', b'\xa0x', b'@ -1 +1 @@', b'*** 1,2 ***'])
+                dl = []
+                at = None
+                for jj, h in enumerate(hs):
+                    rl = render_hunk(h)
+                    if jj == j:
+                        # position of body line i inside the rendered hunk (markers may sit in between)
+                        seen = -1
+                        for q in range(1, len(rl)):
+                            k0 = rl[q][:1]
+                            is_body = (k0 in (b' ', b'-', b'+'))
+                            if is_body:
+                                seen += 1
+                                if seen == i:
+                                    at = len(dl) + q
+                                    rl[q] = foreign
+                                    break
+                    dl += rl
+                    if jj == j:
+                        break
+                if at is not None:
+                    for ig in (False, True):
+                        yield dict(kind='damage-replace', lines=[hx(x) for x in dl], ig=ig, at=at, foreign=hx(foreign))
 
     @staticmethod
     def _ast_json(h):
@@ -208,6 +237,11 @@ class HunksFam(Family):
         if r[0] == 'malformed':
             if not (1 <= r[2] <= len(lines)) or lines[r[2] - 1] != r[1]:
                 out.append(('C14', 'error-position', 'MalformedHunkError names line %d %r which is not that line' % (r[2], r[1])))
+        if c['kind'] == 'damage-replace':
+            want = ('malformed', unhx(c['foreign']), c['at'] + 1)
+            if tuple(r[:3]) != want:
+                out.append(('C14', 'damaged-hunk-not-rejected', 'line %d of a hunk replaced by %r: expected MalformedHunkError '
+                            'naming it, got %r' % (c['at'] + 1, unhx(c['foreign']), r[:3] if r[0] != 'ok' else 'a normal result')))
         if c['kind'] == 'ast':
             hs = [self._ast_load(d) for d in c['ast']]
             seps = [[unhx(x) for x in s] for s in c['seps']]
